@@ -208,33 +208,33 @@ func (r *Rediaron) BatchUpdate(ctx context.Context, data map[string]string) erro
 	return nil
 }
 
+// create all the keys or none of them
+var batchCreateScript = redis.NewScript(`
+for _, key in ipairs(KEYS) do
+	if redis.call("exists", key) == 1 then
+		return 0
+	end
+end
+for i, key in ipairs(KEYS) do
+	redis.call("set", key, ARGV[i])
+end
+return 1
+`)
+
 // BatchCreate is wrapper to adapt etcd batch create
 func (r *Rediaron) BatchCreate(ctx context.Context, data map[string]string) error {
-	create := func(pipe redis.Pipeliner) error {
-		for key, value := range data {
-			pipe.SetNX(ctx, key, value, 0)
-		}
-		return nil
+	keys := []string{}
+	values := []any{}
+	for key, value := range data {
+		keys = append(keys, key)
+		values = append(values, value)
 	}
-
-	cmds, err := r.cli.TxPipelined(ctx, create)
+	created, err := batchCreateScript.Run(ctx, r.cli, keys, values...).Int()
 	if err != nil {
 		return err
 	}
-
-	for _, cmd := range cmds {
-		bc, ok := cmd.(*redis.BoolCmd)
-		if !ok {
-			return ErrBadCmdType
-		}
-
-		created, err := bc.Result()
-		if !created {
-			return ErrAlreadyExists
-		}
-		if err != nil {
-			return err
-		}
+	if created != 1 {
+		return ErrAlreadyExists
 	}
 	return nil
 }
